@@ -89,9 +89,14 @@ type input struct {
 	Graphite  string    `json:"graphite,omitempty"`
 	StatsdTCP bool      `json:"statsd_tcp,omitempty"`
 	Special   int       `json:"special,omitempty"` // 0 finite values, 1 with +-Inf, 2 with NaN
-	Series    []series  `json:"series,omitempty"`
-	Ops       []op      `json:"ops,omitempty"`
-	Class     string    `json:"class,omitempty"`
+	// workers stream: the real BackendHandler + MetricFlusher with several aggregator workers
+	Workers  int      `json:"workers,omitempty"`
+	Flushes  int      `json:"flushes,omitempty"`
+	NewNames int      `json:"new_names,omitempty"` // new metric names dispatched before every flush
+	WSeed    uint64   `json:"wseed,omitempty"`
+	Series   []series `json:"series,omitempty"`
+	Ops      []op     `json:"ops,omitempty"`
+	Class    string   `json:"class,omitempty"`
 }
 
 func maskOf(b []bool) gostatsd.TimerSubtypes {
@@ -363,6 +368,13 @@ func newInfra() *infra {
 	}()
 	x.pool = transport.NewTransportPool(x.logger, viper.New())
 	return x
+}
+
+// newStatsdaemon builds a statsdaemon backend on the shared sinks WITHOUT starting its sender.
+func newStatsdaemon(x *infra, tcp bool) (gostatsd.Backend, error) {
+	v := viper.New()
+	v.Set("statsdaemon", map[string]interface{}{"address": map[bool]string{true: x.tcpAddr, false: x.udpAddr}[tcp], "tcp_transport": tcp})
+	return statsdaemon.NewClientFromViper(v, x.logger, x.pool)
 }
 
 func fatal(err error) {
@@ -653,6 +665,20 @@ func runHist(x *infra, em *hlib.Emitter, in input) {
 						c.Monitors = append(c.Monitors, fmt.Sprintf("op %d: %s never called back within 60s", oi, bs.names[bi]))
 						bs.broken[bi] = true
 					}
+					if bs.names[bi] == "statsdaemon" || bs.names[bi] == "graphite" {
+						// the flush context ends while the payload is handed over: with a context that is
+						// already done every select in SendMetricsAsync / processMetrics may take the
+						// cancellation branch (Go picks among ready branches at random), so repeated sends
+						// visit every hand-over point, in particular the final one.
+						dead, kill := context.WithCancel(bs.ctx)
+						kill()
+						for rep := 0; rep < 16 && !bs.broken[bi]; rep++ {
+							if msg := hlib.Recover(func() { b.SendMetricsAsync(dead, m, func([]error) {}) }); msg != "" {
+								c.Monitors = append(c.Monitors, fmt.Sprintf("op %d: %s SendMetricsAsync with a cancelled context panicked: %s", oi, bs.names[bi], msg))
+								bs.broken[bi] = true
+							}
+						}
+					}
 					if bs.names[bi] == "otlp" {
 						otlpPosts = atomic.LoadInt64(&x.otlpReqs)
 					}
@@ -800,9 +826,14 @@ func announce(in input) {
 
 func runOne(x *infra, em *hlib.Emitter, in input) {
 	announce(in)
-	if in.Stream == "rank" {
+	switch in.Stream {
+	case "rank":
 		runRank(em, in)
-	} else {
+	case "workers":
+		em.Emit(workersViaChild(in)) // in a child process: a runtime fatal error cannot be recovered
+	case "stall":
+		em.Emit(runStall(x)(in))
+	default:
 		runHist(x, em, in)
 	}
 }
@@ -812,6 +843,11 @@ func main() {
 	em := hlib.NewEmitter()
 	defer em.Close()
 	x := newInfra()
+	if a.Extra["stream"] == "workerchild" {
+		workerChildLoop(x, em)
+		return
+	}
+	defer stopWorkerChild()
 	switch a.Mode {
 	case "gen":
 		r := hlib.NewRand(a.Seed)
@@ -819,6 +855,10 @@ func main() {
 			f := r.Fork()
 			if i%4 == 3 {
 				runOne(x, em, genRank(f))
+			} else if i%200 == 10 {
+				runOne(x, em, genStall(f))
+			} else if i%32 == 6 {
+				runOne(x, em, genWorkers(f))
 			} else {
 				runOne(x, em, genHist(f))
 			}
